@@ -94,13 +94,19 @@ def interfere(pvl, dialect):
         m.append("grp", col.PVLGroup([("inner", ["x y"] * 20)]))
         m.append("obj", col.PVLObject([("k", 1)]))
         _INTERFERENCE["m"] = m
+        # characters that only some dialects allow: what one dialect accepted
+        # must not make another dialect accept it later
+        _INTERFERENCE["latin"] = col.PVLModule([("s", "caf\xe9 \xb5m \xff"),
+                                                ("q", col.Quantity(1, "\xb5m"))])
+        _INTERFERENCE["ctrl"] = col.PVLModule([("s", "a\x07b \x01 \x1b \x7f")])
     for other in DIALECTS:
         if other == dialect:
             continue
-        try:
-            make_encoder(pvl, other, {"width": 40}).encode(_INTERFERENCE["m"])
-        except Exception:
-            pass
+        for which in ("m", "latin", "ctrl"):
+            try:
+                make_encoder(pvl, other, {"width": 40}).encode(_INTERFERENCE[which])
+            except Exception:
+                pass
 
 
 def one(rec, pvl, dialect, cfg, module, wit, via):
@@ -174,9 +180,12 @@ def one(rec, pvl, dialect, cfg, module, wit, via):
         rec.count("texts_compared")
     else:
         rec.count("refusals_compared")
+    return texts
 
 
-def case(rec, pvl, dialect, key):
+def regular_case(pvl, dialect, key):
+    """(cfg, module, shape, via) of the case *key* - deterministic, so that a
+    pristine process can rebuild exactly the same module."""
     rng = random.Random(key)
     col = pvl.collections
     cfg = gen_config(rng, dialect)
@@ -195,12 +204,40 @@ def case(rec, pvl, dialect, key):
                       "s": "two words", "h": col.PVLGroup([("z", 1)])}
         shape = "plain-dict"
     via = rng.choice(("encode", "dumps"))
+    return cfg, module, shape, via
+
+
+def first_dump(pvl, dialect, key):
+    """What a process that has done nothing else gets for the case *key*."""
+    cfg, module, shape, via = regular_case(pvl, dialect, key)
+    try:
+        return make_encoder(pvl, dialect, cfg).encode(module)
+    except (ValueError, TypeError) as e:
+        return ("refused", type(e).__name__)
+    except Exception as e:
+        return ("raised", type(e).__name__)
+
+
+def case(rec, pvl, dialect, key, pristine=None):
+    cfg, module, shape, via = regular_case(pvl, dialect, key)
     wit = {"dialect": dialect, "cfg": cfg, "seed": key, "shape": shape, "via": via,
            "module": repr(module)[:900]}
     rec.count(f"shape[{shape}]")
-    one(rec, pvl, dialect, cfg, module, wit, via)
+    texts = one(rec, pvl, dialect, cfg, module, wit, via)
     rec.case((dialect, key), True,
              sample=wit if rec.c["evaluations"] % 997 == 0 else None)
+    if pristine is not None and texts:
+        ref = pristine.ask((dialect, key))
+        ref = tuple(ref) if isinstance(ref, (list, tuple)) else ref
+        rec.count("first_dumps_compared_with_a_pristine_process")
+        if ref != texts[0]:
+            kind = lambda t: "text" if isinstance(t, str) else t[0]  # noqa: E731
+            rec.violation(CHECK, dialect, "dump-depends-on-process-history",
+                          {"here": kind(texts[0]), "pristine": kind(ref)},
+                          {**wit, "in_this_process": repr(texts[0])[:600],
+                           "in_a_pristine_process": repr(ref)[:600]},
+                          "the same module and options give another result in a "
+                          "process that has written other labels before")
 
 
 def build_case(pvl, dialect, key):
@@ -270,11 +307,18 @@ def pristine_process_reference(rec, pvl, dialect, seed, tier):
 
 def shard(i, n, tier, seed, rec, hb):
     pvl = common.import_pvl()
+    # forked before this worker has written anything
+    pristine = common.Pristine(lambda req: first_dump(pvl, req[0], req[1]))
     per = 4000 if tier == "quick" else 800000
-    for dialect in DIALECTS:
-        for j in range(i, per, n):
-            hb.beat()
-            case(rec, pvl, dialect, f"C13-{seed}-{dialect}-{j}")
+    try:
+        for dialect in DIALECTS:
+            for j in range(i, per, n):
+                hb.beat()
+                # (thorough: every 8th case is compared with the pristine copy)
+                use = pristine if tier == "quick" or (j // n) % 8 == 0 else None
+                case(rec, pvl, dialect, f"C13-{seed}-{dialect}-{j}", use)
+    finally:
+        pristine.close()
     if i < len(DIALECTS):
         pristine_process_reference(rec, pvl, DIALECTS[i], seed, tier)
 
@@ -283,7 +327,8 @@ def finish_kwargs(rec, tier):
     return dict(required_counters=("dump_pairs", "texts_compared",
                                    "in_place_group_to_object_conversions",
                                    "shape[trigger]", "shape[plain-dict]",
-                                   "pristine_reference_comparisons"))
+                                   "pristine_reference_comparisons",
+                                   "first_dumps_compared_with_a_pristine_process"))
 
 
 def replay(data):
